@@ -7,6 +7,7 @@ shuffled textual order, over the probe library and over real EEMS commands.
 """
 import itertools
 import random
+import re
 
 from mpv import arr, models, trace
 
@@ -218,6 +219,16 @@ def build_text(case):
             else:
                 lines.append("N%d = %s(InFieldNames = [%s])" % (i, rng.choice(["Sum", "Maximum", "Mean"]), ", ".join(outs)))
         libs = arr.CSV_LIBS
+    if case["lib"] == "eems" and case["order"] % 4 == 1 and case["order"] % 5 != 1:
+        # a writer in a separate, acyclic part of the model whose output folder does not exist yet
+        lines.append('OutFar = EEMSWrite(OutFileName = "results/not_there_yet/out.csv", OutFieldNames = [Leaf])')
+    if case["lib"] == "eems" and case["order"] % 5 == 1:
+        # some commands in the EEMS 2.0 layout (no "Result =", the result named by NewFieldName) under their MPilot names
+        lines = [re.sub(r"^(N\d+) = (Copy|Sum|Maximum|Mean|AMinusB)\((.*)\)$", r"\2(\3, NewFieldName = \1)", ln) if k_ % 2 == 0 else ln for k_, ln in enumerate(lines)]
+    if case["order"] % 6 == 2 and not case.get("late") and not case.get("sorted_order") and case["order"] % 7 not in (1, 2):
+        # commands named like the words for yes and no (ordinary identifiers)
+        ren = {"N0": "True", "N1": "False", "N2": "TRUE"}
+        lines = [re.sub(r"\bN[0-2]\b", lambda m_: ren[m_.group(0)], ln) for ln in lines]
     if case["order"] % 3 == 0:
         # metadata written in front of the other arguments (argument order is free)
         lines = [ln.replace("(", "(Metadata = [DisplayName: Loop, Note: \"x, y\"], ", 1) if "(" in ln and not ln.startswith("Leaf") and "NoOut" not in ln else ln for ln in lines]
@@ -297,7 +308,9 @@ def run_case(ctx, case):
             for name, cmd in src.commands.items():
                 prog.add_command(type(cmd), name, {a.name: _plain(a.value) for a in cmd.arguments})
     except Exception as e:
-        ctx.note_inconclusive("cyclic program did not load: %s" % repr(e)[:200])
+        # the text is well-formed (every generated layout loads on a tree where the property holds): a cyclic model is turned down
+        # when it is run, with the recursive-model error - not while it is loaded, with something else
+        ctx.fail("cyclic-program-does-not-load:%s" % type(e).__name__, {"error": repr(e)[:200], "text": text})
         return
     pre = None
     if not late and not case.get("api") and case["order"] % 7 == 1:
@@ -352,7 +365,7 @@ def run_case(ctx, case):
         ctx.fail("returned-normally:%s%s%s" % ("nothing-ran" if not executed else "partly-ran", ":cycle-closed-after-a-failed-run" if late else "", ":" + pre if pre else ""), {"late_command": late, "text": text, "executed": executed, "unfinished": unfinished, "structure": skey, "via": rkey})
         return
     name = type(err).__name__
-    if name == "RecursiveModelStructure" and case["lib"] == "eems" and not case.get("api") and not late and case["order"] % 4 == 0 and "PrintVars(" not in text:
+    if name == "RecursiveModelStructure" and case["lib"] == "eems" and not case.get("api") and not late and case["order"] % 4 == 0 and "PrintVars(" not in text and "NewFieldName" not in text and "True" not in text:
         # the same file, with a writer at its end, through the command-line tool: the recursive-model report, not a crash
         from click.testing import CliRunner
         from mpilot.cli.mpilot import main
